@@ -15,4 +15,6 @@ for ovf in ("off",):
     subprocess.run(["python3", "-c", "import sys; sys.path.insert(0,'/verif/mirsym'); import mirdump; mirdump.dump('tx3-tir','off')"], check=True)
 PY
 cd /verif/frontend && cp /repo/Cargo.lock Cargo.lock && CARGO_TARGET_DIR=/verif/.cache/frontend-target cargo build --release --offline > /verif/.cache/setup_frontend.log 2>&1 || { tail -30 /verif/.cache/setup_frontend.log; exit 1; }
+cd /verif/replay && cp /repo/Cargo.lock Cargo.lock && RUSTFLAGS="--cfg tx3_verif" CARGO_TARGET_DIR=/verif/.cache/replay-target cargo build --release --offline > /verif/.cache/setup_replay.log 2>&1 || { tail -30 /verif/.cache/setup_replay.log; exit 1; }
+cd /verif && python3-vt lib/selftest.py || { echo "selftest: engine M disagrees with the native code"; exit 1; }
 echo setup ok
